@@ -721,7 +721,7 @@ func bcastLimit() int {
 	if evid.Thorough() {
 		return 150
 	}
-	return 40
+	return 32
 }
 
 func TestBroadcast(t *testing.T) {
